@@ -57,6 +57,16 @@ def gen(rng):
             glyphs.append({"name": n, "unicodes": [u], "width": 500, "anchors": [("top", Fr(250), Fr(700))], "contours": []})
             kerning[(n, "apostrophemod")] = Fr(-10)
             lib["public.skipExportGlyphs"] = [n]
+    if rng.random() < 0.35:
+        # digits whose primary script is specific (Deva / Arab / Beng) but which are shared between many scripts, in a font
+        # that has none of those scripts: they are "common" for this font
+        cands = [("zero-deva", 0x966, ("dev2",)), ("zero-ar", 0x660, ("arab",)), ("zero-bengali", 0x9E6, ())]
+        cands = [c for c in cands if not set(c[2]) & set(tags)]
+        if cands:
+            n, u, _ = rng.choice(cands)
+            glyphs.append({"name": n, "unicodes": [u], "width": 500, "anchors": [("top", Fr(250), Fr(700))], "contours": []})
+            kerning[(n, SCRIPTS[tags[0]][0][0])] = Fr(-15)
+            kerning[(SCRIPTS[tags[0]][1][0], n)] = Fr(-12)
     mode = rng.choice(["none", "dflt", "one", "all", "all+lang"])
     ls = []
     if mode != "none":
